@@ -6,6 +6,7 @@ import Labella.Proofs.VpscCost
 import Labella.Proofs.VpscKKT
 import Labella.Proofs.VpscFuel
 import Labella.Proofs.VpscResolve
+import Labella.Proofs.VpscPath
 import Mathlib.Algebra.Order.Field.Rat
 import Mathlib.Algebra.BigOperators.Group.List.Basic
 import Mathlib.Tactic.Ring
@@ -551,6 +552,50 @@ example :
       = false ∧
     Vpsc.multipliers (Vpsc.resolve 10 20 (Vpsc.init [(0, 1, 1), (0, 1, 1), (0, 1, 1)] [(0, 1, 2), (1, 2, 2)]) [[10, 0, -10], [0, 5, 20]]).1
       = [0, 0] := by
+  decide +kernel
+
+
+/-! ## termination of `satisfy` on path graphs — the instances `removeOverlap` builds
+
+`removeOverlap` hands the solver the variables `[left wall,] label₀ … label_k [, right wall]` and one constraint between each pair of
+neighbours: a path.  On a path the `while` loop of `Solver.satisfy` only ever MERGES two different blocks (an inactive violated
+constraint whose two ends lie in one block would need a second active route between two neighbours, and a path has none), so it ends
+after fewer iterations than there are variables: the loop fuel cannot run out, and `err` can only come from the outer loop of `solve`. -/
+
+/-- every constraint joins two consecutive variables `i`, `i + 1`, and no two constraints join the same pair -/
+def IsPath (st : Vpsc.St) : Prop :=
+  (∀ c, c < st.cs.size → (Vpsc.getC st c).r = (Vpsc.getC st c).l + 1 ∧ (Vpsc.getC st c).r < st.vs.size) ∧
+  ∀ c c', c < st.cs.size → c' < st.cs.size → (Vpsc.getC st c).l = (Vpsc.getC st c').l → c = c'
+
+/-- on a path, in any state that satisfies the invariants, a `satisfy` pass with more loop fuel than there are variables finishes -/
+theorem path_satisfy_terminates (st : Vpsc.St) (h : Vpsc.Inv2 st) (hcov : Vpsc.Covered st none) (herr : st.err = false)
+    (hp : IsPath st) (sfuel : Nat) (hf : st.vs.size < sfuel) :
+    (Vpsc.satisfy sfuel st).err = false :=
+  Vpsc.path_satisfy_noerr st h hcov herr hp sfuel hf
+
+/-- hence for the instances `removeOverlap` builds: `solve` can raise `err` only because the test of its OUTER loop
+(`|lastcost − cost| > 0.0001`) was still true at the start of each of its `fuel` iterations -/
+theorem path_solve_err_only_outer (vars : List (Rat × Rat × Rat)) (cons : List (Nat × Nat × Rat))
+    (hidx : ∀ c ∈ cons, c.1 < vars.length ∧ c.2.1 < vars.length) (hs : ∀ v ∈ vars, v.2.2 ≠ 0)
+    (hpath : ∀ c ∈ cons, c.2.1 = c.1 + 1) (hnd : (cons.map (·.1)).Nodup) (fuel sfuel : Nat) (hf : vars.length < sfuel)
+    (he : (Vpsc.solve fuel sfuel (Vpsc.init vars cons)).1.err = true) :
+    ∀ k, k < fuel → Vpsc.solveCond (Vpsc.solveIter sfuel k (Vpsc.solveStart sfuel (Vpsc.init vars cons))) = true := by
+  obtain ⟨hI2, hcov⟩ := Vpsc.init_inv2 vars cons hidx hs
+  have hvs : (Vpsc.init vars cons).vs.size = vars.length := (Vpsc.init_inv vars cons hidx hs).2.2.2.1
+  exact Vpsc.path_solve_err_outer fuel sfuel _ hI2 hcov (init_err vars cons)
+    (Vpsc.init_isPathSt vars cons hidx hs hpath hnd) (by rw [hvs]; exact hf) he
+
+/-- non-vacuity: a wall-like heavy first variable (weight 10⁶) followed by three labels wanted at 1, 1, 2 with gaps 3 between neighbours is a path
+instance (hypotheses `hidx`, `hs`, `hpath`, `hnd` hold), `5 > 4` is enough loop fuel, and `solve` ends without `err`; with too little loop
+fuel (`sfuel = 1`) the `satisfy` loop is cut off and `err` is raised, so the fuel hypothesis is not idle -/
+example :
+    (∀ c ∈ [(0, 1, (3 : Rat)), (1, 2, 3), (2, 3, 3)], c.1 < 4 ∧ c.2.1 < 4) ∧
+    (∀ v ∈ [((0 : Rat), (1000000 : Rat), (1 : Rat)), (1, 1, 1), (1, 1, 1), (2, 1, 1)], v.2.2 ≠ 0) ∧
+    (∀ c ∈ [(0, 1, (3 : Rat)), (1, 2, 3), (2, 3, 3)], c.2.1 = c.1 + 1) ∧
+    (([(0, 1, (3 : Rat)), (1, 2, 3), (2, 3, 3)] : List (Nat × Nat × Rat)).map (·.1)).Nodup ∧
+    ([((0 : Rat), (1000000 : Rat), (1 : Rat)), (1, 1, 1), (1, 1, 1), (2, 1, 1)] : List (Rat × Rat × Rat)).length < 5 ∧
+    (Vpsc.solve 10 5 (Vpsc.init [(0, 1000000, 1), (1, 1, 1), (1, 1, 1), (2, 1, 1)] [(0, 1, 3), (1, 2, 3), (2, 3, 3)])).1.err = false ∧
+    (Vpsc.solve 10 1 (Vpsc.init [(0, 1000000, 1), (1, 1, 1), (1, 1, 1), (2, 1, 1)] [(0, 1, 3), (1, 2, 3), (2, 3, 3)])).1.err = true := by
   decide +kernel
 
 end Labella.C05
